@@ -14,6 +14,7 @@ import (
 
 	"istio.io/istio/pkg/kube"
 	"istio.io/istio/pkg/kube/krt"
+	"istio.io/istio/pkg/kube/kubetypes"
 	"verifharness/internal/wire"
 )
 
@@ -36,13 +37,22 @@ func (r *infRun) quiesce() {
 	synctest.Wait()
 }
 
-func newInfRun() runner {
+func newInfRun(flags ...string) runner {
 	r := &infRun{stop: make(chan struct{}), subs: map[string]*subscriber{}, isubs: map[string]*subscriber{}}
 	r.client = kube.NewFakeClient()
-	r.cms = krt.NewInformer[*corev1.ConfigMap](r.client, krt.WithStop(r.stop), krt.WithName("configmaps"))
+	if contains(flags, "fn") {
+		// a filtered informer: only namespace n1 reaches the collection
+		r.cms = krt.NewFilteredInformer[*corev1.ConfigMap](r.client, kubetypes.Filter{Namespace: "n1"}, krt.WithStop(r.stop), krt.WithName("configmaps"))
+	} else {
+		r.cms = krt.NewInformer[*corev1.ConfigMap](r.client, krt.WithStop(r.stop), krt.WithName("configmaps"))
+	}
 	r.nsIdx = krt.NewNamespaceIndex(r.cms)
 	r.der = krt.NewCollection(r.cms, func(ctx krt.HandlerContext, cm *corev1.ConfigMap) *Out {
-		return &Out{Key: cm.Namespace + "/" + cm.Name, NS: cm.Namespace, Val: "d:" + cm.Data["v"]}
+		val := "d:" + cm.Data["v"]
+		if cm.Name == "a" && krt.ResourceExists(ctx, r.cms, cm.Namespace+"/b") {
+			val += "+b"
+		}
+		return &Out{Key: cm.Namespace + "/" + cm.Name, NS: cm.Namespace, Val: val}
 	}, krt.WithStop(r.stop), krt.WithName("derived"))
 	r.client.RunAndWait(r.stop)
 	r.quiesce()
@@ -103,29 +113,38 @@ func (r *infRun) step(toks []string) (string, string) {
 		return "ok", line
 	case (toks[0] == "sub" || toks[0] == "isub") && len(toks) == 3:
 		s := &subscriber{}
-		if toks[2] == "nostate" {
-			r.quiesce()
-		}
+		// always at a quiescent point: the first ResourceExists of a transformation registers a dependency on the
+		// informer and polls (sleeping, under the collection lock) until that handler has synced; a root goroutine
+		// blocked on that lock is not "durably blocked", so the fake clock of the bubble would never move
+		r.quiesce()
 		if toks[0] == "sub" {
 			r.subs[toks[1]] = s
 			switch toks[2] {
 			case "single":
-				r.der.Register(s.record)
+				s.reg = r.der.Register(s.record)
 			case "batch":
-				r.der.RegisterBatch(recOut(s), true)
+				s.reg = r.der.RegisterBatch(recOut(s), true)
 			default:
-				r.der.RegisterBatch(recOut(s), false)
+				s.reg = r.der.RegisterBatch(recOut(s), false)
 			}
 		} else {
 			r.isubs[toks[1]] = s
 			switch toks[2] {
 			case "single":
-				r.cms.Register(func(e krt.Event[*corev1.ConfigMap]) { recCM(s)([]krt.Event[*corev1.ConfigMap]{e}) })
+				s.reg = r.cms.Register(func(e krt.Event[*corev1.ConfigMap]) { recCM(s)([]krt.Event[*corev1.ConfigMap]{e}) })
 			case "batch":
-				r.cms.RegisterBatch(recCM(s), true)
+				s.reg = r.cms.RegisterBatch(recCM(s), true)
 			default:
-				r.cms.RegisterBatch(recCM(s), false)
+				s.reg = r.cms.RegisterBatch(recCM(s), false)
 			}
+		}
+		return "ok", line
+	case toks[0] == "iunsub" && len(toks) == 2:
+		if s := r.isubs[toks[1]]; s != nil && s.reg != nil && !s.unreg {
+			r.quiesce()
+			s.reg.UnregisterHandler() // on an informer's registration
+			r.quiesce()
+			s.unreg, s.frozen = true, len(s.snapshot())
 		}
 		return "ok", line
 	}
@@ -159,15 +178,23 @@ func (r *infRun) step(toks []string) (string, string) {
 		if s == nil {
 			return toks[0] + " unknown-subscriber", line
 		}
+		if h := s.health(); h != "" {
+			return toks[0] + " " + h, strings.Join(append([]string{toks[0], toks[1]}, s.snapshot()...), " ")
+		}
 		return toks[0] + " accept", strings.Join(append([]string{toks[0], toks[1]}, s.snapshot()...), " ")
 	}
 	return "bad-op", line
 }
 
 func genInfCase(r *wire.Rng, n int, w *wire.Out) {
-	w.Line("case", fmt.Sprint(n), "inf")
+	if r.Chance(30, 100) {
+		w.Line("case", fmt.Sprint(n), "inf", "fn") // NewFilteredInformer: namespace n1 only
+	} else {
+		w.Line("case", fmt.Sprint(n), "inf")
+	}
 	cur := map[string]bool{}
 	var subs, isubs []string
+	iunsubbed := 0
 	queries := func() {
 		w.Line("list")
 		w.Line("ilist")
@@ -218,6 +245,9 @@ func genInfCase(r *wire.Rng, n int, w *wire.Out) {
 			name := fmt.Sprintf("i%d", len(isubs)+1)
 			isubs = append(isubs, name)
 			w.Line("isub", name, wire.Pick(r, []string{"single", "batch", "nostate"}))
+		case x < 96 && len(isubs) > iunsubbed:
+			w.Line("iunsub", isubs[iunsubbed])
+			iunsubbed++
 		default:
 			queries()
 		}
